@@ -112,6 +112,7 @@ def main (argv = None):
     samples  = []
     worst    = []
     harness_tb = None
+    by_monitor = {}
     for c in cases:
         res = c ['res']
         st  = res.get ('status')
@@ -142,6 +143,9 @@ def main (argv = None):
                                  , margin = res.get ('margin'), info = res.get ('info')))
         if res.get ('margin') is not None:
             worst.append ((res ['margin'], res.get ('sig'), c ['spec']))
+        for k, v in (res.get ('margins') or {}).items ():
+            if isinstance (v, (int, float)) and v == v:
+                by_monitor [k] = max (by_monitor.get (k, 0.0), v)
     worst.sort (key = lambda x: -x [0] if isinstance (x [0], (int, float)) else 0)
     # anchors / contract evaluations over all workers
     anchors = {}
@@ -208,6 +212,7 @@ def main (argv = None):
         , contract_evaluations = dict (evals)
         , events_observed     = dict (events)
         , anchor_lines_hit    = {q: '%d/%d' % tuple (v) for q, v in anchors.items ()}
+        , worst_margin_by_monitor = {k: round (v, 4) for k, v in sorted (by_monitor.items ())}
         , worst_margins       = [dict (margin = w [0], signature = w [1], case = w [2]) for w in worst [:5]]
         , known_findings_matched = [dict (property = k [0], key = k [1], cases = e ['n'], what = e ['what'])
                                     for k, e in known_hits.items ()]
